@@ -350,6 +350,17 @@ for _cid, _m in {
     "C16": {"stream_handovers": 150},
 }.items():
     EXTRA_MIN.setdefault(_cid, {}).update(_m)
+# round 15
+for _cid, _m in {
+    "C05": {"acks_behind_a_large_message": 100},
+    "C07": {"repeated_identifier_cases": 30},
+    "C08": {"dropped_stream_next_to_live_ones_cases": 40},
+    "C09": {"repeated_identifier_cases": 30},
+    "C12": {"oversized_requests_at_a_full_window": 80},
+    "C14": {"requests_queued_when_the_context_was_dropped": 5000},
+    "C16": {"task_handovers": 2000},
+}.items():
+    EXTRA_MIN.setdefault(_cid, {}).update(_m)
 for _cid, _m in EXTRA_MIN.items():
     for _tier in ("quick", "thorough"):
         CHECKS[_cid]["min_observed"].setdefault(_tier, {})
